@@ -11,13 +11,17 @@ Grammar (EBNF; everything else in a source file is skipped at item level with ba
                          | other )                      -- other: skipped up to ';' or a balanced '{...}'
              -- `#[derive(A, B, ..)]` attributes of a struct / enum are kept (the derived operators are part of its meaning)
   fn       := 'fn' IDENT generics? '(' param,* ')' ('->' type)? ( block | ';' )
-  param    := '&'? 'mut'? 'self' | 'mut'? IDENT ':' type
+  param    := '&'? 'mut'? 'self' | 'mut'? IDENT ':' type   -- a parameter of type `&mut T` is recorded as a mutable borrow
   type     := '&' LIFETIME? 'mut'? type | '[' type ';' INT ']' | '[' type ']' | '(' type,* ')' | path ('<' type,* '>')?
             | 'Self' '::' IDENT                         -- an associated type of the impl
+            | IDENT '::' IDENT                          -- `P::Item`: an associated type of a type parameter (one upper-case
+                                                           letter, or a name followed by `::` and `Item` / `Error` / `Output`)
   block    := '{' stmt* expr? '}'
   stmt     := 'let' pat (':' type)? '=' expr ';'
             | lvalue ('=' | '+=' | '-=' | '*=' | '/=') expr ';'
             | 'for' pat 'in' expr0 ('..' expr0)? block
+            | 'while' expr0 block | 'loop' block          -- left with `break` (no value, no label) / `return`
+            | 'use' path ('::' '*')? ';'                  -- inside a block: `use E::*;` brings the variants of the enum E into scope
             | 'return' expr? ';'
             | ifexpr | matchexpr | expr ';'
   pat      := alt ('|' alt)*
@@ -31,7 +35,7 @@ Grammar (EBNF; everything else in a source file is skipped at item level with ba
   cast     := unary ('as' type)*
   unary    := ('-' | '!' | '&' 'mut'? | '*') unary | postfix       -- `let r = &mut v[i];` makes r an alias of the place v[i]
   postfix  := primary ( '.' IDENT ('::' '<' ... '>')? ('(' expr,* ')')? | '.' INT | '[' expr ']' | '(' expr,* ')' | '?' )*
-  primary  := INT | FLOAT | STRING | CHAR | 'true' | 'false' | path | path '{' (IDENT (':' expr)?),* '}'     -- not in expr0
+  primary  := INT | FLOAT | STRING | CHAR | 'true' | 'false' | path | path '{' (IDENT (':' expr)?),* ('..' expr)? '}'     -- not in expr0
             | '(' expr,* ')' | '[' expr,* ']' | block | ifexpr | matchexpr | IDENT '!' ( '(' ... ')' | '[' expr,* ']' )
             | 'return' expr? | 'break' | 'continue' | 'move'? '|' pat,* '|' expr
   ifexpr   := 'if' ('let' pat '=')? expr0 block ('else' (ifexpr | block))?
@@ -181,7 +185,7 @@ KEYWORDS = {"as", "break", "const", "continue", "crate", "else", "enum", "extern
             "true", "type", "unsafe", "use", "where", "while", "dyn", "async", "await"}
 
 # path prefixes that are KEPT in the name of a type (`proto::Point` is the type `proto__Point`, not `Point`)
-KEEP_QUAL = {"proto"}
+KEEP_QUAL = {"proto", "tproto"}
 
 class Parser:
     def __init__(self, toks, fname):
@@ -540,9 +544,12 @@ class Parser:
                 self.i = j
                 self.half = False
                 self.accept("mut")
+                mutref = False
                 try:
                     pn = self.ident()
                     self.eat(":")
+                    if self.at("&") and (self.at("mut", 1) or (self.peek(1).kind == "lifetime" and self.at("mut", 2))):
+                        mutref = True
                     pt = self.parse_type()
                 except Unsupported as ex:
                     # signature outside the subset: keep the function as untranslatable
@@ -561,7 +568,7 @@ class Parser:
                         if t.kind == "punct" and t.val == ">>":
                             depth -= 2
                         self.i += 1
-                params.append((pn, pt, False))
+                params.append((pn, pt, mutref and pn is not None))
             if not self.accept(","):
                 break
         self.eat(")")
@@ -631,6 +638,8 @@ class Parser:
         name = segs[-1]
         if len(segs) == 2 and segs[0] == "Self":
             return ("assoc", name)
+        if len(segs) == 2 and len(segs[0]) == 1 and segs[0].isupper():
+            return ("passoc", segs[0], name)       # `P::Item`: an associated type of the type parameter P
         if len(segs) >= 2 and segs[-2] in KEEP_QUAL:
             name = segs[-2] + "__" + name
         args = []
@@ -787,8 +796,33 @@ class Parser:
                 hi = self.parse_expr(no_struct=True)
             body = self.parse_block()
             return N("for", t.line, pat=pat, lo=lo, hi=hi, body=body)
-        if self.at("while") or self.at("loop"):
-            self.err("`%s` is outside the subset" % t.val)
+        if self.at("while"):
+            self.i += 1
+            if self.at("let"):
+                self.err("`while let` is outside the subset")
+            cond = self.parse_expr(no_struct=True)
+            body = self.parse_block()
+            return N("while", t.line, cond=cond, body=body)
+        if self.at("loop"):
+            self.i += 1
+            body = self.parse_block()
+            return N("while", t.line, cond=None, body=body)
+        if self.at("use"):
+            self.i += 1
+            segs, glob = [], False
+            while True:
+                if self.accept("*"):
+                    glob = True
+                    break
+                if self.at("{"):
+                    self.err("`use a::{..}` inside a block is outside the subset")
+                if self.peek().kind != "ident":
+                    self.err("expected a path after `use`")
+                segs.append(self.peek().val); self.i += 1
+                if not self.accept("::"):
+                    break
+            self.eat(";")
+            return N("use", t.line, segs=segs, glob=glob)
         if (self.at("if") or self.at("match")) :
             e = self.parse_if() if self.at("if") else self.parse_match()
             if not (self.at(".") or self.at("?")):
@@ -1061,7 +1095,7 @@ class Parser:
                 e = self.parse_expr()
             return N("return", t.line, e=e)
         if self.at("while") or self.at("loop"):
-            self.err("`%s` (loops other than `for`) is outside the subset" % t.val)
+            self.err("`%s` used as an expression is outside the subset (only as a statement)" % t.val)
         if t.kind == "ident" and (t.val not in KEYWORDS or t.val in ("crate", "super")):
             segs = [t.val]; self.i += 1
             while self.at("::"):
@@ -1090,9 +1124,13 @@ class Parser:
             if self.at("{") and not ns and (segs[-1].split("__")[-1][:1].isupper()):
                 self.i += 1
                 fields = []
+                base = None
                 while not self.at("}"):
                     if self.at(".."):
-                        self.err("struct update syntax is outside the subset")
+                        # struct update syntax `..base` (last in the literal)
+                        self.i += 1
+                        base = self.parse_expr()
+                        break
                     self.skip_attrs_vis()
                     fn = self.ident()
                     if self.accept(":"):
@@ -1103,7 +1141,7 @@ class Parser:
                     if not self.accept(","):
                         break
                 self.eat("}")
-                return N("structlit", t.line, name=segs[-1], segs=segs, fields=fields)
+                return N("structlit", t.line, name=segs[-1], segs=segs, fields=fields, base=base)
             return N("path", t.line, segs=segs)
         self.err("expression outside the subset")
 
